@@ -13,7 +13,7 @@ Driver for property C09.  One scenario per line:
       -> `<fx>* | ph=<phase> fired=<results> pend=<serial[t]>* timers=<serial>* dc=<ids> reg=<proxy ids> prox=<id:alive:cbs>*`
          or `parse-err <kind>` when the address does not parse
 
-  events: af ac ap ao ax hr he cl rp:<serial>:<0|1> ex:<serial> ca:<0|1>:<r> no:<r> cn:<c> pe:<key> pi:<key>
+  events: af[:refused|connectError|dnsLookup|timeout|other] ac ap ao ax hr he cl rp:<serial>:<0|1> ex:<serial> ca:<0|1>:<r> no:<r> cn:<c> pe:<key> pi:<key>
           pn:<p>:<r> pc:<p>:<c> dp:<p>          reactions r: n c u r
 -/
 open Txdbus.Client.Endpoints Txdbus.Client.Lifecycle Driver
@@ -55,7 +55,12 @@ def parseBool : String → Option Bool
 
 def parseEv (tok : String) : Option Ev :=
   match tok.splitOn ":" with
-  | ["af"] => some .attemptFails
+  | ["af"] => some (.attemptFails .refused)
+  | ["af", "refused"] => some (.attemptFails .refused)
+  | ["af", "connectError"] => some (.attemptFails .connectError)
+  | ["af", "dnsLookup"] => some (.attemptFails .dnsLookup)
+  | ["af", "timeout"] => some (.attemptFails .timeout)
+  | ["af", "other"] => some (.attemptFails .other)
   | ["ac"] => some .attemptConnects
   | ["ap"] => some .authProgress
   | ["ao"] => some .authOk
